@@ -290,15 +290,23 @@ def apply_fault(sess, a):
                                                 gradient=False, hessian=True, bhhh=False).function
         ok, engine, e = expect_error(sess, f'second derivatives without first ones for formula {fi}', f)
     elif kind == 'bad_choice_key':
-        utils = {'1': ['beta', 'b0'], '2': ['*', ['beta', 'b1'], ['var', 'c0']]}   # the choice column also takes 3
-        ast = ['loglogit', utils, None, ['var', 'ch']]
-        rows = sess.rows_for(dbi)
-        if entry != 'biogeme':
-            rows = [rows[salt % len(rows)]]
-        if all(r['ch'] != 3 for r in rows):
-            ctx.log('FAULT', kind, 'skip-no-such-row')
-            return
-        ok, engine, e = expect_error(sess, f'choice value without a utility, via {entry}', lambda: run(plant(base, path, ast)), survey=survey)
+        if (salt // 4) % 3 == 0:
+            # a choice that is not the identifier of any alternative because it is not an integer (1.5, 2.5, 3.5)
+            utils3 = {'1': ['beta', 'b0'], '2': ['*', ['beta', 'b1'], ['var', 'c0']], '3': ['num', 0.0]}
+            avs3 = {str(k_): ['var', f'av{k_}'] for k_ in (1, 2, 3)} if salt % 2 else None
+            ast = ['loglogit', utils3, avs3, ['+', ['var', 'ch'], ['num', 0.5]]]
+            ok, engine, e = expect_error(sess, f'choice that is not an integer, via {entry}', lambda: run(plant(base, path, ast)),
+                                         survey=survey)
+        else:
+            utils = {'1': ['beta', 'b0'], '2': ['*', ['beta', 'b1'], ['var', 'c0']]}   # the choice column also takes 3
+            ast = ['loglogit', utils, None, ['var', 'ch']]
+            rows = sess.rows_for(dbi)
+            if entry != 'biogeme':
+                rows = [rows[salt % len(rows)]]
+            if all(r['ch'] != 3 for r in rows):
+                ctx.log('FAULT', kind, 'skip-no-such-row')
+                return
+            ok, engine, e = expect_error(sess, f'choice value without a utility, via {entry}', lambda: run(plant(base, path, ast)), survey=survey)
     elif kind == 'bad_avail_keys':
         utils = {'1': ['beta', 'b0'], '2': ['var', 'c0'], '3': ['beta', 'b1']}
         avs = _bad_avs(salt)
@@ -400,11 +408,15 @@ def apply_fault(sess, a):
             fn = lambda: run(base, data=db.Database('bad', t.iloc[0:0]))
         else:
             # a valid table, emptied afterwards by removing every observation
+            as_panel = bool((salt // 2) % 2)
+
             def fn():
-                d_ = db.Database('emptied', t)
+                d_ = db.Database('emptied', t.sort_values('ch', kind='stable').reset_index(drop=True) if as_panel else t)
+                if as_panel:
+                    d_.panel('ch')
                 d_.remove(ex.Variable('c0') > -100)
                 return run(base, data=d_)
-            kind = 'empty_data (table emptied by remove())'
+            kind = 'empty_data (table emptied by remove()' + (', declared panel before' if as_panel else '') + ')'
         ok, engine, e = expect_error(sess, f'{kind} table, via {entry}', fn)
     elif kind == 'panel_outside':
         t = sess.tables[dbi].copy().sort_values('ch', kind='stable').reset_index(drop=True)
@@ -477,6 +489,21 @@ def apply_fault(sess, a):
             lp = _nested_entry(salt, utils, nests, ex.Variable('ch'))
             return lp.get_value_c(database=sess.dbs[dbi], aggregation=True, prepare_ids=True)
         ok, engine, e = expect_error(sess, f'{kind}', f)
+    elif kind == 'column_renamed_before_simulate':
+        # an object with several formulas; a column read by a formula that is NOT the last one is then renamed in the table;
+        # simulate() audits the formulas again and refuses
+        fb = ref.Builder(eb.beta_specs(), pool=sess.pool, share_elementary=False)
+        t_ = sess.tables[dbi].copy()
+        d_ = db.Database('ren', t_)
+        n_forms = 2 + salt % 2
+        forms = {'first': fb.build(['+', ['*', ['beta', 'b0'], ['var', 'c0']], ['var', 'c1']]),
+                 'second': fb.build(['*', ['beta', 'b1'], ['var', 'p0']])}
+        if n_forms == 3:
+            forms['third'] = fb.build(['+', ['var', 'p1'], ['num', 1.0]])
+        B_ = bio.BIOGEME(d_, forms, parameters=params())
+        d_.data = d_.data.rename(columns={'c1': 'c1_renamed'})
+        ok, engine, e = expect_error(sess, f'column c1 renamed after the object was built, then simulate() ({n_forms} formulas, '
+                                           f'the first one reads it)', lambda: B_.simulate({'b0': 0.1, 'b1': 0.2}))
     elif kind == 'catalog_entry_fault':
         # a catalog with a valid entry (selected when the object is built) and a faulty one (a column that is not in the
         # data, as such or inside a condition): estimate_catalog() reaches the faulty entry, which must be refused like the
